@@ -129,8 +129,9 @@ register(Assumed("tempfile.NamedTemporaryFile.__exit__", params=[], pure=True,
 register(Assumed("os.remove", params=["path"], raises=[Raises("OSError", when="path not in g_files")],
                  effects=["g_files.discard(path)"], pure=True,
                  why="removes the file; raises FileNotFoundError/OSError if it does not exist (other OS failures not modelled)"))
-register(Assumed("os.path.exists", params=["path"], returns="bool", pure=True, ensures=["implies(path in g_files, result)"],
-                 why="a file this run created and has not removed exists"))
+register(Assumed("os.path.exists", params=["path"], returns="bool", pure=True,
+                 ensures=["implies(path in g_files, result)", "implies(not user_file(path), result == (path in g_files))"],
+                 why="a file this run created and has not removed exists; a temporary path (fresh unique name) exists only if this run created it"))
 register(Assumed("shutil.copyfile", params=["src", "dst"], raises=[Raises("OSError")], pure=True,
                  effects=["g_written.add(dst)"],
                  why="copies content of src over dst (dst is truncated first); ghost g_written records dst"))
